@@ -43,6 +43,8 @@ LINES = [
     "---",
     "``",
     "`",
+    f"```caf{NFD} shorter run then NFD",
+    f"  ````py {NFD}\ttab",
     "  indented two",
     "      indented six",
     "trailing spaces   ",
